@@ -12,13 +12,122 @@ import (
 func init() { register("C13", true, runC13) }
 
 func runC13(c *Check) {
-	c.Explanation = "The modular address arithmetic of C13 is out of static reach; decided are the structural conditions around it, for every layout: every error returned by the base computation chain (GetBase, HeaderForFileOffset, findProgramHeader, computeBase, elf.Open) is examined and the accompanying value is unused when it is non-nil (R1); the relocation base is only read after baseOnce.Do and only on the path where baseErr is nil (R2); both symbolizer pipes are sent addr - base with the base handed to their constructor from file.base, and the nm table adds that same base to every symbol address (R3); computeBase rejects addresses outside [start, limit) before looking for a segment (R4); the nm lookup returns early for an empty table or an address outside the table, and for data symbols compares against start+size (R5); HeaderForFileOffset cannot return success without a matching header (R6). Not decided: that the computed base and the chosen segment are the right ones, the binary search's arithmetic."
+	c.Explanation = "The modular address arithmetic of C13 is out of static reach; decided are the structural conditions around it, for every layout: every error returned by the base computation chain (GetBase, HeaderForFileOffset, findProgramHeader, computeBase, elf.Open) is examined and the accompanying value is unused when it is non-nil (R1); the relocation base is only read after baseOnce.Do and only on the path where baseErr is nil (R2); both symbolizer pipes are sent addr - base with the base handed to their constructor from file.base, and the nm table adds that same base to every symbol address (R3); computeBase rejects addresses outside [start, limit) before looking for a segment (R4); the nm lookup returns early for an empty table or an address outside the table, and for data symbols compares against start+size (R5); HeaderForFileOffset cannot return success without a matching header (R6); the segment search receives the mapping's offset, its size limit-start and the sample's file offset addr-start+offset, the base formula receives start, limit and offset in that order, and ObjAddr returns addr-base, each compared as a linear form so that a dropped, swapped or wrong uint64 operand is reported (R7). Not decided: that the computed base and the chosen segment are the right ones, the binary search's arithmetic."
 	c.errorDiscipline()
 	c.baseReads()
 	c.pipeAddresses()
 	c.computeBaseRange()
 	c.nmLookup()
 	c.headerForOffset()
+	c.mappingHandOver()
+}
+
+// ---- R7: the mapping's parameters are handed to the segment search and to the base
+// formula as the quantities those functions are documented to take.  All of them are
+// uint64, so a swapped, dropped or wrong operand compiles; the rule compares the linear
+// form (sum of signed terms) of every such argument with the expected one.
+func (c *Check) mappingHandOver() {
+	p := c.P
+	type want struct {
+		caller, callee string
+		arg            int
+		form           map[string]int
+		what           string
+	}
+	table := []want{
+		{"(*elfMapping).findProgramHeader", "ProgramHeadersForMapping", 1, map[string]int{"m.offset": 1}, "the mapping's file offset"},
+		{"(*elfMapping).findProgramHeader", "ProgramHeadersForMapping", 2, map[string]int{"m.limit": 1, "m.start": -1}, "the mapping's size, limit - start"},
+		{"(*elfMapping).findProgramHeader", "HeaderForFileOffset", 1, map[string]int{"addr": 1, "m.start": -1, "m.offset": 1}, "the sample's file offset, addr - start + offset"},
+		{"(*file).computeBase", "GetBase", 3, map[string]int{"m.start": 1}, "the mapping start"},
+		{"(*file).computeBase", "GetBase", 4, map[string]int{"m.limit": 1}, "the mapping limit"},
+		{"(*file).computeBase", "GetBase", 5, map[string]int{"m.offset": 1}, "the mapping's file offset"},
+	}
+	name := func(f *ssa.Function) func(ssa.Value) string {
+		return func(v ssa.Value) string {
+			if pr, ok := v.(*ssa.Parameter); ok {
+				if bt, ok := pr.Type().Underlying().(*types.Basic); ok && bt.Kind() == types.Uint64 {
+					for i, q := range f.Params {
+						if q == pr && i > 0 {
+							return "addr"
+						}
+					}
+				}
+				return ""
+			}
+			if ld, ok := v.(*ssa.UnOp); ok && ld.Op == token.MUL {
+				if fa, ok := ld.X.(*ssa.FieldAddr); ok {
+					if T, F := fieldOf(fa.X.Type(), fa.Field); T == "binutils.elfMapping" {
+						return "m." + F
+					}
+				}
+			}
+			return ""
+		}
+	}
+	for _, w := range table {
+		f := c.anchorFn("C13-R7", "internal/binutils", w.caller)
+		if f == nil {
+			continue
+		}
+		key := fmt.Sprintf("handover:%s→%s#%d", w.caller, w.callee, w.arg)
+		n := 0
+		for _, b := range f.Blocks {
+			for _, ins := range b.Instrs {
+				call, ok := ins.(*ssa.Call)
+				if !ok || call.Call.StaticCallee() == nil || call.Call.StaticCallee().Name() != w.callee || w.arg >= len(call.Call.Args) {
+					continue
+				}
+				n++
+				pname := ""
+				if callee := call.Call.StaticCallee(); w.arg < len(callee.Params) {
+					pname = callee.Params[w.arg].Name()
+				}
+				got, ok := linForm(call.Call.Args[w.arg], name(f))
+				switch {
+				case !ok:
+					c.undecided("C13-R7", key, p.relFile(call.Pos()), "argument "+pname+" of "+w.callee+" is not a sum of mapping parameters and the address")
+				case sameLin(got, w.form):
+					c.ok("C13-R7", key, p.relFile(call.Pos()), w.callee+" receives "+w.what+" as "+pname, "argument = "+linString(got))
+				default:
+					c.bad("C13-R7", key, p.relFile(call.Pos()), fmt.Sprintf("%s passes %s to %s as %s, which must be %s (%s): the wrong segment is selected and addresses are translated with the wrong base", w.caller, linString(got), w.callee, pname, w.what, linString(w.form)))
+				}
+			}
+		}
+		if n == 0 {
+			c.undecided("C13-R7", key, p.relFile(f.Pos()), w.caller+" no longer calls "+w.callee)
+		}
+	}
+	// ObjAddr returns addr - base
+	if f := c.anchorFn("C13-R7", "internal/binutils", "(*file).ObjAddr"); f != nil {
+		okRet := false
+		for _, b := range f.Blocks {
+			if ret, isRet := b.Instrs[len(b.Instrs)-1].(*ssa.Return); isRet && len(ret.Results) == 2 {
+				if k, isK := ret.Results[1].(*ssa.Const); !isK || !k.IsNil() {
+					continue
+				}
+				got, ok := linForm(ret.Results[0], func(v ssa.Value) string {
+					if pr, ok := v.(*ssa.Parameter); ok && pr != f.Params[0] {
+						return "addr"
+					}
+					if isFieldLoad(v, "binutils.file", "base") {
+						return "base"
+					}
+					return ""
+				})
+				if ok && sameLin(got, map[string]int{"addr": 1, "base": -1}) {
+					okRet = true
+				} else {
+					c.bad("C13-R7", "objaddr", p.relFile(ret.Pos()), "ObjAddr's successful return is not addr - base")
+					return
+				}
+			}
+		}
+		if okRet {
+			c.ok("C13-R7", "objaddr", p.relFile(f.Pos()), "ObjAddr returns the runtime address minus the base", "successful return = addr - file.base")
+		} else {
+			c.undecided("C13-R7", "objaddr", p.relFile(f.Pos()), "no successful return found in ObjAddr")
+		}
+	}
 }
 
 // ---- R1
@@ -280,21 +389,40 @@ func (c *Check) pipeAddresses() {
 			continue
 		}
 		key := "pipe:" + w.fn
-		found := false
-		for _, b := range f.Blocks {
-			for _, ins := range b.Instrs {
-				sub, ok := ins.(*ssa.BinOp)
-				if !ok || sub.Op != token.SUB {
-					continue
-				}
-				if pr, ok := sub.X.(*ssa.Parameter); ok && pr.Name() == "addr" && isFieldLoad(sub.Y, w.T, "base") {
-					// flows into a write call
-					if flowsToCall(sub, "write", 4, map[ssa.Value]bool{}) {
-						found = true
+		// the address parameter: the first uint64 parameter after the receiver
+		pidx := -1
+		for i, pr := range f.Params {
+			if bt, ok := pr.Type().Underlying().(*types.Basic); ok && bt.Kind() == types.Uint64 && i > 0 && pidx < 0 {
+				pidx = i
+			}
+		}
+		var findSub func(g *ssa.Function, idx, depth int) bool
+		findSub = func(g *ssa.Function, idx, depth int) bool {
+			if idx < 0 || idx >= len(g.Params) || depth > 3 {
+				return false
+			}
+			for _, b := range g.Blocks {
+				for _, ins := range b.Instrs {
+					switch x := ins.(type) {
+					case *ssa.BinOp:
+						if x.Op == token.SUB && x.X == ssa.Value(g.Params[idx]) && isFieldLoad(x.Y, w.T, "base") && flowsToCall(x, "write", 4, map[ssa.Value]bool{}) {
+							return true
+						}
+					case *ssa.Call:
+						// the request is written by a helper of the same type that receives the address unchanged
+						if callee := x.Call.StaticCallee(); callee != nil && callee != g && len(callee.Blocks) > 0 && fnPkgPath(callee) == fnPkgPath(f) {
+							for i, a := range x.Call.Args {
+								if a == ssa.Value(g.Params[idx]) && findSub(callee, i, depth+1) {
+									return true
+								}
+							}
+						}
 					}
 				}
 			}
+			return false
 		}
+		found := findSub(f, pidx, 0)
 		if found {
 			c.ok("C13-R3", key, p.relFile(f.Pos()), w.fn+" sends addr - base to the tool", "the written request is formatted from BinOp SUB(addr, receiver.base)")
 		} else {
